@@ -98,6 +98,19 @@ func (l *Loop) detectRange() {
 			}
 		}
 	}
+	// counted index loop: for i := 0; i < len(x) [&& …]; i++ — the element index is the φ itself
+	for _, in := range h.Instrs {
+		if ph, ok := in.(*ssa.Phi); ok {
+			if x := countedIndex(ph); x != nil {
+				// len(x) is re-evaluated in the header: the ranged slice must not be reassigned in the loop
+				if xi, ok := x.(ssa.Instruction); ok && l.Blocks[xi.Block()] {
+					continue
+				}
+				l.IdxPhi, l.Idx, l.Over = ph, ph, x
+				return
+			}
+		}
+	}
 	// map / string range: t = next(it); if ok goto body else done
 	for _, in := range h.Instrs {
 		if nx, ok := in.(*ssa.Next); ok {
